@@ -78,7 +78,7 @@ func replayVisit(checker string) func(rc *runCtx, h *harness, v *interp.Violatio
 			} else if _, ok := model["file.Decls#len"]; ok {
 				root, category = "file", "file"
 			}
-			sources, notes = realise(model, specView(), root, category, 24)
+			sources, notes = realise(model, specView(), root, category, 40)
 			sources = append(sources, realiseComments(model)...)
 		}
 		if len(sources) == 0 {
@@ -111,6 +111,15 @@ func replayVisit(checker string) func(rc *runCtx, h *harness, v *interp.Violatio
 			case "assert":
 				if strings.HasPrefix(v.Msg, "pos:") && r.Status == "OK" && i < len(sources) {
 					if bad := badDiagnostic(sources[i], r.JSON); bad != "" {
+						confirmed, detail = i, bad
+					}
+				}
+				if strings.HasPrefix(v.Msg, "suggest:") && r.Status == "OK" && i < len(sources) {
+					bad, fixed, offs := badSuggestion(checker, sources[i], r.JSON)
+					if bad == "" {
+						bad = stillReported(checker, params, fixed, offs)
+					}
+					if bad != "" {
 						confirmed, detail = i, bad
 					}
 				}
